@@ -98,7 +98,7 @@ Example C08_examples :
   snd (read_all [] 96 (B "#diffx: version=1.0, encoding=cp037" ++ ex_nl ++ B "#.preamble: length=2" ++ ex_nl ++ B "a" ++ ex_nl))
     = TExc EUnmodelled /\
   snd (read_all [] 96 (ex_main_hdr ++ B "#.meta: length=3, format=json" ++ ex_nl ++ B "{}" ++ ex_nl)) = TExc EOracleMiss.
-Proof. repeat split; vm_compute; reflexivity. Qed.
+Proof. repeat (match goal with |- _ /\ _ => split; [vm_compute; reflexivity|] end). vm_compute; reflexivity. Qed.
 
 Example C08_dom_examples :
   (* a preamble left as bytes (no encoding in force) cannot be stored: TypeError -> DiffXParseError *)
@@ -115,4 +115,4 @@ Example C08_dom_examples :
     = Err ELibParse /\
   (* and a file that loads *)
   match dom_read ex_orc ex_file with Ok t => List.length (d_changes t) = 1 | Err _ => False end.
-Proof. repeat split; vm_compute; reflexivity. Qed.
+Proof. repeat (match goal with |- _ /\ _ => split; [vm_compute; reflexivity|] end). vm_compute; reflexivity. Qed.
